@@ -846,10 +846,24 @@ func c01Gen(tier string, rng *rand.Rand, emit func(string)) map[string]interface
 	for t := range zoo {
 		tys = append(tys, t)
 	}
-	// deterministic order
+	// deterministic order: plain kinds first, then pointers, then nested Maybes (so that the first reported
+	// failing case is the simplest one)
+	rank := func(t string) int {
+		switch {
+		case t == "any":
+			return 0
+		case t == "boxed":
+			return 4
+		case strings.HasPrefix(t, "M:"):
+			return 3
+		case strings.HasPrefix(t, "p:"):
+			return 2
+		}
+		return 1
+	}
 	for i := range tys {
 		for j := i + 1; j < len(tys); j++ {
-			if tys[j] < tys[i] {
+			if rank(tys[j]) < rank(tys[i]) || (rank(tys[j]) == rank(tys[i]) && tys[j] < tys[i]) {
 				tys[i], tys[j] = tys[j], tys[i]
 			}
 		}
